@@ -378,13 +378,13 @@ impl Fetch {
                     let la: Vec<&str> = a.lines().filter(|l| !b.lines().any(|x| x == *l)).take(4).collect();
                     let lb: Vec<&str> = b.lines().filter(|l| !a.lines().any(|x| x == *l)).take(4).collect();
                     let what = la.first().or(lb.first()).map(|l| if l.starts_with("HEAD") { "head" } else if l.starts_with("refs/tags") { "tag" } else if l.starts_with("refs/") { "ref" } else if l.starts_with("shallow") { "shallow" } else { "config" }).unwrap_or("");
-                    rep.violate(P, format!("fetch clone differs-from-git-clone {what} head={head_kind} | {shape}"), format!("cloning state {st}: git clone has {la:?}; gitoxide has {lb:?}"));
+                    rep.violate(P, if head_kind == "branch" { format!("fetch clone differs-from-git-clone {what} | {shape}") } else { format!("fetch clone deviates head={head_kind} | {what} {shape}") }, format!("cloning state {st}: git clone has {la:?}; gitoxide has {lb:?}"));
                     break;
                 }
                 let fsck = git(&cg).args(["fsck", "--connectivity-only", "--no-dangling"]).output().map_err(|e| e.to_string())?;
                 let fsck_text = format!("{}{}", String::from_utf8_lossy(&fsck.stdout), String::from_utf8_lossy(&fsck.stderr));
                 if !fsck.status.success() || fsck_text.contains("missing") || fsck_text.contains("broken") {
-                    rep.violate(P, format!("fetch clone fsck-complains head={head_kind} | {shape}"), format!("after cloning state {st}: {}", fsck_text.lines().take(4).collect::<Vec<_>>().join("; ")));
+                    rep.violate(P, if head_kind == "branch" { format!("fetch clone fsck-complains | {shape}") } else { format!("fetch clone deviates head={head_kind} | fsck {shape}") }, format!("after cloning state {st}: {}", fsck_text.lines().take(4).collect::<Vec<_>>().join("; ")));
                     break;
                 }
                 *rep.probes.entry("cloned-like-git".into()).or_insert(0) += 1;
